@@ -26,7 +26,7 @@ RULE = ("cases = call histories run(a1), ..., run(ak), k = 2..6, on one parser o
         "worker process, workers running under PYTHONHASHSEED 0, 1, 4242, 31337, random...; every run() executes in an empty scratch "
         "cwd under a file-system audit hook. Non-trivial = history with >= 2 different argument sets on a script with >= 2 "
         "entities; distinct = distinct (script, history)."
-        " Added after seeded defects: file_path / dump_path arguments without dump, parse_from_file under the file monitor, empty scripts, cross-script histories (B alters a table only A defines), a bystander object with the opposite flags constructed (never run) between the calls.")
+        " Added after seeded defects: file_path / dump_path arguments without dump, parse_from_file under the file monitor, empty scripts, cross-script histories (B alters a table only A defines), a bystander object with the opposite flags constructed (never run) between the calls, scripts without any ';' whose last line starts a statement.")
 ASSUMPTIONS = ["'another process' = same machine, same interpreter build", "dump=False throughout (C19 owns dumping)"]
 MIN_EVENTS = {"run_return": 500}
 HASHSEEDS = ["0", "1", "4242", "31337", "random", "7", "99999", "random"]
@@ -63,7 +63,13 @@ def gen_script(rng):
     else:
         text = GS.gen_mixed(rng, with_comments=0.4, with_unsupported=0.2)["text"]
     r = rng.random()
-    if r < 0.2:
+    import re
+    lines = text.rstrip("\n").split("\n")
+    if r < 0.12 and len(lines) > 1 and re.match(r"(CREATE|DROP)\b", lines[-1], re.I) and not any(m in text for m in ("--", "/*", "#", "ALTER ", "INDEX ")):
+        # no ';' at all and no final newline: every statement is closed by the start of the next one, the last one by the end of the input
+        lines = [l[:-1] if l.endswith(";") and re.match(r"(CREATE|DROP)\b", nxt, re.I) else l for l, nxt in zip(lines, lines[1:] + [""])]
+        text = "\n".join(lines).rstrip(";")
+    elif r < 0.2:
         text = text.rstrip("\n").rstrip(";") + "\n"          # unterminated last statement
     elif r < 0.35:
         text = "SET search_path = public;\n" + text
